@@ -226,6 +226,8 @@ class Contexts:
         nm = self.bound('c')
         it = b.I([r.choice(scope) for _ in range(r.randint(0, 1))])
         if nm in self.names:
+            if r.random() < 0.5:        # [... for x in I(k, x)]: the iterable reads the function's x before the target is bound
+                it = b.I([nm])
             # A target that shadows a variable of the function: the element stays free of constructs the converter wraps
             # in lambdas.  CPython 3.12.1 miscompiles an inlined comprehension whose target is captured by a nested lambda
             # while the same name is declared nonlocal in the enclosing function (the assignment of the result is lost);
@@ -335,12 +337,13 @@ class RandomGen:
     def __init__(self, rnd, maxdepth=3, loop_else=False, maxfns=3, ifexp=True, exprstmt=True, dele=True,
                  try_=True, with_=True, calls=True, names=None, hnames=True, directives=True, contexts=None, lam_rate=0.08,
                  def_rate=0.0, call_rate=0.0, closure_bias=False, init=0.7, obj_rate=0.3,
-                 globfns=0, list_rate=0.2):
+                 globfns=0, list_rate=0.2, list_stmt_rate=0.15):
         self.contexts = CONTEXTS if contexts is None else contexts
         self.globfns = globfns          # number of module-level functions the function under test (and they) can call
         self.init = init                # probability that the program starts by assigning its variables
         self.objects = self.contexts and rnd.random() < obj_rate     # this program keeps attribute state on an object `o`
         self.lists = self.contexts and rnd.random() < list_rate     # ... and a list `l` (a local of the function under test)
+        self.list_stmt_rate = list_stmt_rate
         self.lam_rate = lam_rate        # share of statements that store / call a lambda value
         self.def_rate = def_rate        # extra share of statements that define / call a nested function (closure profile)
         self.call_rate = call_rate
@@ -416,7 +419,7 @@ class RandomGen:
             return self.cx.lambda_stmt(b, fn, scope)
         if self.objects and self.r.random() < 0.12:
             return self.cx.object_stmt(b, fn, scope, self.value(scope, 1))
-        if self.lists and fn == 1 and self.r.random() < 0.15:
+        if self.lists and fn == 1 and self.r.random() < self.list_stmt_rate:
             return self.cx.list_stmt(b, fn, scope, self.value(scope, 1))
         if self.calls and self.def_rate and depth <= 1 and len(b.fns) < self.maxfns and self.r.random() < self.def_rate:
             return self.def_stmt(fn, scope, depth)
